@@ -251,6 +251,16 @@ func hashWorkload() {
 	}
 	run("aad3b435b51404eeaad3b435b51404ee", "31d6cfe0d16ae931b73c59d7e0c089c0")
 	run(mk(3), mk(10))
+	// ties between the two halves: the same 32 digits on both sides, halves that differ in one
+	// digit or only in letter case, one half inside the other's text (a half is a field, not a
+	// substring to search for)
+	same := mk(5)
+	run(same, same)
+	run(same, same[:31]+"0")
+	run(strings.ToUpper(same), same)
+	run("31d6cfe0d16ae931b73c59d7e0c089c0", "31d6cfe0d16ae931b73c59d7e0c089c0")
+	run(strings.Repeat("0", 32), strings.Repeat("0", 32))
+	run(strings.Repeat("ab", 16), strings.Repeat("ba", 16))
 	for t := 0; t < r.Pick(3, 40); t++ {
 		run(mk(-1), mk(-1))
 	}
